@@ -498,11 +498,26 @@ func bridgeHistory(w *tracew.Writer, seed int64, run, depth int, mode, network s
 				g.Bitcoin.Params.DepositTaxRate, g.Bitcoin.Params.MaxDepositTax = uint64(1+r.Intn(30)), uint64(50+r.Intn(5000))
 			}
 			if mode == "params" && r.Intn(2) == 0 { // boundary genesis parameters (whatever Params.Validate lets through)
+				saved := g.Bitcoin.Params
 				g.Bitcoin.Params.DepositTaxRate = []uint64{1, 9999, 10000}[r.Intn(3)]
 				g.Bitcoin.Params.MaxDepositTax = []uint64{1, 100000000}[r.Intn(2)]
 				g.Bitcoin.Params.MinDepositAmount = []uint64{1000, 10000}[r.Intn(2)]
+				tame := g.Bitcoin.Params
+				if r.Intn(2) == 0 { // out-of-range companions of a perfectly valid tax setting (and of no tax at all)
+					g.Bitcoin.Params.ConfirmationNumber = []uint64{0, 1, 6}[r.Intn(3)]
+					g.Bitcoin.Params.MinDepositAmount = []uint64{1, 546, 999, 1000, 10000}[r.Intn(5)]
+					if r.Intn(3) == 0 {
+						g.Bitcoin.Params.DepositTaxRate, g.Bitcoin.Params.MaxDepositTax = 0, 0
+					}
+				}
 				if err := g.Bitcoin.Params.Validate(); err != nil { // refused by the module's own validation: not a reachable genesis
-					g.Bitcoin.Params.DepositTaxRate = 9999
+					g.Bitcoin.Params = tame
+					if err := g.Bitcoin.Params.Validate(); err != nil {
+						g.Bitcoin.Params.DepositTaxRate = 9999
+						if err := g.Bitcoin.Params.Validate(); err != nil {
+							g.Bitcoin.Params = saved
+						}
+					}
 				}
 			}
 		}})
